@@ -175,7 +175,9 @@ CLAIMED["C20"] = {
 CLAIMED["C14"] = {
     "text": "Reference state machine of a moc-set (ordered entries, capacity 128*n128-1, statuses) with theorems: a refused append leaves the state unchanged; an append succeeds iff the id "
             "is not live and the file is not full (so re-adding works exactly after removal); uniqueness of live identifiers is an invariant; purge drops exactly the removed entries; list and "
-            "extract read the state. The REAL mocset binary is run on generated histories (incl. completely filled files, deep/shallow/empty MOCs, a lock held by another writer) and compared "
+            "extract read the state; extract commutes with append / chgstatus / purge (abstraction map to `identifier -> MOC`), chgstatus on identifiers none of which is live leaves the file "
+            "unchanged, and for EVERY command history: at most one live entry per identifier (history_noDupLive) and whatever extract returns is, up to its status, an initial entry or a MOC "
+            "appended in the history under that identifier (history_extract_origin). The REAL mocset binary is run on generated histories (incl. completely filled files, deep/shallow/empty MOCs, a lock held by another writer) and compared "
             "with the model after every command; refusals must leave the file bytes unchanged; extract must return the MOC added. One defect repaired (chgstatus on a full file applied the "
             "change but reported failure).",
     "design_ref": "DESIGN.md §4 C14, §10",
